@@ -39,9 +39,9 @@ AllowedInterleaved(e) == e.okA /\ e.okB /\ ~e.panic
 
 TraceNext ==
   /\ l <= Len(Trace) /\ l' = l + 1 /\ UNCHANGED m
-  /\ \/ Trace[l].ev = "ReadFault" /\ AllowedRead(Trace[l])
-     \/ Trace[l].ev = "WriteFault" /\ AllowedWrite(Trace[l])
-     \/ Trace[l].ev = "Interleaved" /\ AllowedInterleaved(Trace[l])
+  /\ \/ Trace[l].ev = "ReadFault" /\ AllowedRead(Trace[l]) = TRUE
+     \/ Trace[l].ev = "WriteFault" /\ AllowedWrite(Trace[l]) = TRUE
+     \/ Trace[l].ev = "Interleaved" /\ AllowedInterleaved(Trace[l]) = TRUE
 TraceSpec == TraceInit /\ [][TraceNext]_<<l, m>>
 TraceAccepted ==
   LET d == TLCGet("stats").diameter IN
